@@ -544,6 +544,8 @@ where
 #[cfg(feature = "verif-hooks")]
 pub mod verif_hooks_socone {
     use super::*;
+    /// the (otherwise unnameable) shape marker taken by `mul_W` / `mul_Winv`
+    pub use crate::algebra::MatrixShape;
 
     pub fn step_length_soc_component<T: FloatT>(x: &[T], y: &[T], αmax: T) -> T {
         _step_length_soc_component(x, y, αmax)
